@@ -270,6 +270,12 @@ def _default_tree(key_path: Key, value: Any):
   match key_path:
     case ():
       return value
+    case (Reserved() as key, *_) if _is_key(key, _SELF):
+      # SELF selects the whole (sub)tree, same as in `_set_by_path`.
+      return value
+    case (Reserved() as key, *_) if _is_key(key, _SKIP):
+      # SKIP ignores the value, same as in `_set_by_path` on an empty tree.
+      return NullMap()
     case (Index(key), *rest_keys):
       if key == 0:
         return [_default_tree(Key(rest_keys), value)]
